@@ -17,10 +17,10 @@ type Ctx struct {
 	R    *core.Report
 	Tier string
 
-	lk    *locks.Analysis
-	eff   *effects.Analysis
-	roles *Roles
-	reach map[*ssa.Function]map[*ssa.Function]bool
+	lk       *locks.Analysis
+	eff      *effects.Analysis
+	roles    *Roles
+	reach    map[*ssa.Function]map[*ssa.Function]bool
 	entryLk  map[*ssa.Function]map[string]locks.Mode
 	accesses []fieldAccess
 	guarded  map[string]string
